@@ -176,22 +176,21 @@ fn check_one(rep: &mut Report, b: &Value, toks: &[Value], ideal: &Value, second_
     }
 }
 
-pub fn replay(args: &Args) -> i32 {
-    let mut rep = Report::new();
-    let mut k = 0u64;
-    for b in read_ndjson(args.req("in")) {
-        k += 1;
-        let toks = b["tokens"].as_array().cloned().unwrap_or_default();
-        let ideal = &b["ideal"];
-        let ncell = toks.iter().filter(|t| t["t"] == "cell").count();
-        // non-trivial: a cell together with a filler record, a second row or a second cell
-        let nontrivial = ncell > 0 && toks.len() > 2;
-        rep.case(&json!([b["pre"], b["tokens"]]), nontrivial);
-        check_one(&mut rep, &b, &toks, ideal, k % 5 == 0);
-        if rep.evaluated % 9973 == 1 {
-            rep.sample(json!({"tokens": b["tokens"], "expected": ideal}));
-        }
+fn replay_one(rep: &mut Report, k: u64, b: &Value) {
+    let toks = b["tokens"].as_array().cloned().unwrap_or_default();
+    let ideal = &b["ideal"];
+    let ncell = toks.iter().filter(|t| t["t"] == "cell").count();
+    // non-trivial: a cell together with a filler record, a second row or a second cell
+    let nontrivial = ncell > 0 && toks.len() > 2;
+    rep.case(&json!([b["pre"], b["tokens"]]), nontrivial);
+    check_one(rep, b, &toks, ideal, k % 5 == 0);
+    if k % 9973 == 1 {
+        rep.sample(json!({"tokens": b["tokens"], "expected": ideal}));
     }
+}
+
+pub fn replay(args: &Args) -> i32 {
+    let rep = crate::par::par_replay(args.req("in"), replay_one);
     rep.write(args.req("out"));
     0
 }
@@ -215,7 +214,7 @@ pub fn frames(args: &Args) -> i32 {
         }
         // a record of that id and length, inside an FRT bracket, between two cells and two rows
         let toks = vec![
-            json!({"t": "row", "r": 1}),
+            json!({"t": "row", "r": 1048574}),
             json!({"t": "cell", "c": 127, "v": {"k": "rk", "int": true, "d100": false, "m": "7", "canon": "7"}}),
             json!({"t": "ign", "id": 35, "len": 4}),
             json!({"t": "ign", "id": id, "len": len}),
@@ -227,8 +226,8 @@ pub fn frames(args: &Args) -> i32 {
             json!({"t": "row", "r": 1048575}),
             json!({"t": "cell", "c": 16383, "v": {"k": "real", "x": "2.5", "canon": "2.5"}}),
         ];
-        let ideal = json!({"start": [1, 127], "end": [1048575, 16383],
-            "cells": [[1, 127, ["n", "7"]], [1, 128, ["s", "after"]], [1048575, 16383, ["n", "2.5"]]]});
+        let ideal = json!({"start": [1048574, 127], "end": [1048575, 16383],
+            "cells": [[1048574, 127, ["n", "7"]], [1048574, 128, ["s", "after"]], [1048575, 16383, ["n", "2.5"]]]});
         let beh = json!({"frame": b, "pre": {"ws_prop": true}, "tokens": toks, "sst": []});
         check_one(&mut rep, &beh, &toks, &ideal, false);
     }
@@ -306,13 +305,20 @@ fn push_filler(rng: &mut StdRng, toks: &mut Vec<Value>, budget: &mut usize) {
 fn gen_sheet(rng: &mut StdRng, nrows: usize, nsst: usize) -> Vec<Value> {
     let mut toks = Vec::new();
     let mut budget = 400_000usize;
-    // ascending rows anywhere in 0..=1048575
+    // the dense Range bounds the rectangle: a window of h rows x w columns placed anywhere in
+    // 0..=1048575 x 0..=16383 (tall and narrow, or short and wide)
+    let (h, w): (u32, u32) = match rng.gen_range(0..3) {
+        0 => (rng.gen_range(1000..60000), rng.gen_range(1..20)),
+        1 => (rng.gen_range(20..80), 16384),
+        _ => (rng.gen_range(200..2000), rng.gen_range(100..600)),
+    };
+    let r0 = match rng.gen_range(0..3) { 0 => 0, 1 => 1048576 - h, _ => rng.gen_range(0..=1048576 - h) };
+    let c0 = match rng.gen_range(0..3) { 0 => 0, 1 => 16384 - w, _ => rng.gen_range(0..=16384 - w) };
     let mut rows: Vec<u32> = (0..nrows)
         .map(|_| match rng.gen_range(0..4) {
-            0 => rng.gen_range(0..50),
-            1 => rng.gen_range(65000..66000),
-            2 => rng.gen_range(1048000..1048576),
-            _ => rng.gen_range(0..1048576),
+            0 => r0 + rng.gen_range(0..h.min(5)),
+            1 => r0 + h - 1 - rng.gen_range(0..h.min(5)),
+            _ => r0 + rng.gen_range(0..h),
         })
         .collect();
     rows.sort();
@@ -324,10 +330,9 @@ fn gen_sheet(rng: &mut StdRng, nrows: usize, nsst: usize) -> Vec<Value> {
         toks.push(json!({"t": "row", "r": r}));
         let mut cols: Vec<u32> = (0..rng.gen_range(0..8))
             .map(|_| match rng.gen_range(0..4) {
-                0 => rng.gen_range(0..4),
-                1 => rng.gen_range(126..130),
-                2 => rng.gen_range(16380..16384),
-                _ => rng.gen_range(0..16384),
+                0 => c0 + rng.gen_range(0..w.min(4)),
+                1 => c0 + w - 1 - rng.gen_range(0..w.min(4)),
+                _ => c0 + rng.gen_range(0..w),
             })
             .collect();
         cols.sort();
